@@ -143,7 +143,7 @@ impl<S: Read + Write> Client<S> {
             }
             else {
                 // now wait for body
-                Ok(Payload::Raw(Cursor::new(self.transport.read(size.inner() as usize - 4)?)))
+                Ok(Payload::Raw(self.read_body(size.inner() as usize - 4)?))
             }
         } else {
             // fast path
@@ -158,17 +158,29 @@ impl<S: Read + Write> Client<S> {
                 if length < 3 {
                     Err(Error::RdpError(RdpError::new(RdpErrorKind::InvalidSize, "Invalid minimal size for TPKT")))
                 } else {
-                    Ok(Payload::FastPath(sec_flag, Cursor::new(self.transport.read(length as usize - 3)?)))
+                    Ok(Payload::FastPath(sec_flag, self.read_body(length as usize - 3)?))
                 }
             }
             else {
                 if short_length < 2 {
                     Err(Error::RdpError(RdpError::new(RdpErrorKind::InvalidSize, "Invalid minimal size for TPKT")))
                 } else {
-                    Ok(Payload::FastPath(sec_flag, Cursor::new(self.transport.read(short_length as usize - 2)?)))
+                    Ok(Payload::FastPath(sec_flag, self.read_body(short_length as usize - 2)?))
                 }
             }
          }
+    }
+
+    /// Read the body of a frame
+    /// A frame with an empty body is valid: nothing more must be
+    /// read from the link in this case (asking the link for zero byte
+    /// means "read what is available" and would eat the next frame)
+    fn read_body(&mut self, size: usize) -> RdpResult<Cursor<Vec<u8>>> {
+        if size == 0 {
+            Ok(Cursor::new(Vec::new()))
+        } else {
+            Ok(Cursor::new(self.transport.read(size)?))
+        }
     }
 
     /// This function transform the link layer with
